@@ -323,6 +323,79 @@ pub fn run(ctx: &mut Ctx) {
     }
     ctx.sample(json!({"program": progs[2].0, "text": progs[2].1, "encodings": ENCODINGS}));
 
+    // ---- (1c) the same programs with characters that Windows-1252 does not have (CJK, supplementary planes) in
+    // the four Unicode encodings, and every program (both sets) as a document of the language server: the text is
+    // what was decoded, the published range is the label's place in it counted in UTF-16 units
+    {
+        let uprogs: Vec<(&'static str, String)> = programs().into_iter().map(|(n, t)| (n, t.replace('\u{20ac}', "\u{1F600}").replace('\u{e9}', "\u{6f22}").replace('\u{fc}', "\u{1D11E}").replace('\u{2122}', "\u{10400}"))).collect();
+        let mut jobs = vec![];
+        for (pi, (name, text)) in uprogs.iter().enumerate() {
+            for enc in ENCODINGS.iter().filter(|e| **e != "windows-1252") {
+                jobs.push((pi, *name, *enc, encode(text, enc)));
+            }
+        }
+        let results: Vec<(usize, &str, &str, Outcome, String)> = jobs
+            .par_iter()
+            .enumerate()
+            .map(|(n, (pi, name, enc, bytes))| {
+                let dir = scratch.sub(&format!("u{}", n));
+                let tmp = scratch.sub(&format!("ut{}", n));
+                let path = dir.join("prog.st");
+                std::fs::write(&path, bytes).unwrap();
+                let c = cli::run(&["check", path.to_str().unwrap()], &tmp, Duration::from_secs(30));
+                let inproc = match in_process(&path) {
+                    Ok((s, _)) => s,
+                    Err(e) => format!("ERR {}", e),
+                };
+                (*pi, *name, *enc, outcome(&c), inproc)
+            })
+            .collect();
+        for (pi, (name, text)) in uprogs.iter().enumerate() {
+            let rs: Vec<_> = results.iter().filter(|r| r.0 == pi).collect();
+            let base = rs.iter().find(|r| r.2 == "utf8").unwrap();
+            for r in &rs {
+                ctx.evaluations += 1;
+                ctx.transitions += 1;
+                ctx.traces += 1;
+                ctx.distinct(&format!("unicode|{}|{}", name, r.2));
+                let replay = json!({"mode":"program","program":name,"encoding":r.2,"text":text});
+                if r.3.crashed {
+                    ctx.fail(&format!("crash/{}/beyond-windows-1252/{}", r.2, name), &format!("binary crashed on program {} (characters beyond Windows-1252) in {}", name, r.2), replay.clone());
+                } else if r.3 != base.3 {
+                    ctx.fail(&format!("utf8-vs-{}/beyond-windows-1252/{}", r.2, name), &format!("program {}: `check` in utf8 gives {:?}, in {} gives {:?}", name, base.3, r.2, r.3), replay.clone());
+                }
+                if r.4.starts_with("ERR") {
+                    ctx.fail(&format!("label-outside-decoded-text/{}/beyond-windows-1252/{}", r.2, name), &r.4, replay.clone());
+                }
+            }
+            if name.starts_with("valid") && !base.3.ok {
+                ctx.fail(&format!("valid-program-rejected/beyond-windows-1252/{}", name), &format!("the valid program is reported {:?}", base.3.diags), json!({"mode":"program","program":name,"encoding":"utf8","text":text}));
+            }
+        }
+        let all: Vec<(String, &String)> = progs.iter().map(|(n, t)| (format!("windows-1252-characters/{}", n), t)).chain(uprogs.iter().map(|(n, t)| (format!("beyond-windows-1252/{}", n), t))).collect();
+        let res: Vec<Vec<(String, String)>> = all
+            .par_iter()
+            .map(|(_, text)| {
+                let mut out = vec![];
+                // as it is, behind a byte-order mark that was not taken off, and with CRLF line ends
+                for (vname, t) in [("as-decoded", (*text).clone()), ("crlf", text.replace('\n', "\r\n"))] {
+                    for (k, w) in crate::checks::c02::lsp_range_core(&[("file:///w/a.st".to_string(), "/w/a.st".to_string(), t.clone())], None) {
+                        out.push((format!("{}/{}", k, vname), w));
+                    }
+                }
+                out
+            })
+            .collect();
+        for ((name, text), probs) in all.iter().zip(res.iter()) {
+            ctx.evaluations += 2;
+            ctx.transitions += 2;
+            for (k, w) in probs {
+                ctx.fail(&format!("language-server-range/{}/{}", k, name), &format!("program {} as a document: {}", name, w), json!({"mode":"lsp-document","text": text}));
+            }
+        }
+        ctx.bounds.insert("programs_beyond_windows_1252".into(), json!(uprogs.len()));
+    }
+
     // ---- (1b) two files in one invocation, each in every encoding, both argument orders: the
     // diagnostics of a file must be what a single-file run of the same decoded text reports
     // (the decoding of one file must not depend on what was read before it)
@@ -748,6 +821,17 @@ pub fn replay(case: &Value) -> Result<String, String> {
     let tmp = scratch.sub("t");
     let path = dir.join("f.st");
     match case["mode"].as_str() {
+        Some("lsp-document") => {
+            let text = case["text"].as_str().ok_or("text")?;
+            let mut probs = vec![];
+            for t in [text.to_string(), text.replace('\n', "\r\n")] {
+                probs.extend(crate::checks::c02::lsp_range_core(&[("file:///w/a.st".to_string(), "/w/a.st".to_string(), t)], None));
+            }
+            match probs.first() {
+                None => Ok("every published range is the label's place in the document".into()),
+                Some((k, w)) => Err(format!("{} :: {}", k, w)),
+            }
+        }
         Some("program") => {
             let text = case["text"].as_str().ok_or("text")?;
             let enc = case["encoding"].as_str().ok_or("encoding")?;
